@@ -14,7 +14,8 @@ func init() { register("C02", "other", checkC02) }
 
 func checkC02(w *World, r *Result) {
 	r.Explanation = "Decides structural necessary conditions on generator/go/gounions (and the union table it consumes): TPL-C02a in every instantiation of the union template the marshalling wrapper is a struct with exactly the untagged fields Kind string / Data any and the unmarshalling one Kind string / Data json.RawMessage, the Marshal switch is on item.Data.(type) and the Unmarshal switch on wr.Kind, both ending in a default; AGR-C02b the Kind literal written and the Kind literal matched are the same value, the member's local Go type name (the vocabulary the TypeScript, Dart and SQL generators use too); AGR-C02c one encoding case and one decoding case per member, appended in the same loop iteration; the shadow struct gets one field, one to-wrapper and one from-wrapper entry per field of the struct, in lock-step; FLW-C02d the struct tag of every mirrored field is carried into the shadow struct (so every other field keeps the key encoding/json gives it); AGR-C02e every field type is handed to the generator whether or not the struct itself needs a wrapper (nested types in other files get their methods); AGR-C02w a field is replaced by its wrapper exactly when its analysed type is a union, with `<Union>Wrapper{item.F}` on the way out and `wr.F.Data` on the way in; TPL-C02f named slices/maps of unions wrap and unwrap element-wise; AGR-C11f the union table lists every implementer (rule shared with C11); TPL-1 the templates parse. Does not decide: deep equality of the round trip, nil/empty equivalence, encoding/json's behaviour on the shadow struct."
-	r.Rules = []string{"TPL-C02a", "AGR-C02b", "AGR-C02c", "FLW-C02d", "AGR-C02e", "AGR-C02w", "TPL-C02f", "TPL-C02g", "AGR-C11f", "TPL-1", "ALIAS-APPEND", "PRINTF", "CACHE-DROP", "AGR-C11c"}
+	r.Rules = []string{"TPL-C02a", "AGR-C02b", "AGR-C02c", "FLW-C02d", "AGR-C02e", "AGR-C02w", "TPL-C02f", "TPL-C02g", "AGR-C11f", "TPL-1", "ALIAS-APPEND", "PRINTF", "CACHE-DROP", "AGR-C11c", "DECL-ID"}
+	declIDRule(w, r, "generator/go/gounions")
 	// the union table consumed by the templates: candidates are the defined named types of the scope, each once (rule shared with C11)
 	checkCandidates(w, r)
 	cacheDropRule(w, r, func(rel string) bool { return rel == "generator/go/gounions" })
